@@ -1637,6 +1637,11 @@ def c09_parallel_groups(ctx):
         inner.append(cmd_sign(alg, None, "c0ffee", api="mem", mem="m"))
         inner.append(cmd_sign(alg, None, "c0ffee", api="mem", mem="m"))
         inner.append(cmd_lifetime(alg, mem="m"))
+        # the caller rewrites the bytes of the in-memory object (as_mut_slice): it continues like a key loaded from them
+        inner.append({"op": "poke", "alg": alg, "mem": "m", "key": key_at("sk", 9)})
+        inner.append(cmd_sign(alg, None, "a5a5", api="mem", mem="m", out={"sig": "s"}))
+        inner.append(cmd_verify(alg, "a5a5", slot("s"), slot("pk")))
+        inner.append(cmd_lifetime(alg, mem="m"))
         cmds += inner                                        # in the main thread, before
         cmds.append({"op": "threads", "n": 4 if quick else 16, "cmds": inner})
         cmds.append({"op": "subprocess", "cmds": inner})
